@@ -537,6 +537,12 @@ def hex_recog(repo, func, name):
         return None
 
     def recog(e):
+        r = syntactic(e)
+        if r is not None:
+            return r
+        return sampled(e)
+
+    def syntactic(e):
         if isinstance(e, ast.Call) and isinstance(e.func, ast.Name) and e.func.id in ("any", "all") and e.args and isinstance(e.args[0], ast.GeneratorExp):
             ge = e.args[0]
             if len(ge.generators) != 1 or not any(isinstance(x, ast.Name) and x.id == name for x in ast.walk(ge.generators[0].iter)):
@@ -560,6 +566,18 @@ def hex_recog(repo, func, name):
                 return None
             if rt[2] == "fullmatch" and cs <= spec.HEXDIG:
                 return -1
+        return None
+
+    def sampled(e):
+        # any other spelling (named character table, all()/any() variants, set operations): decided on samples by the
+        # evaluator -- true exactly on the strings with a byte outside 0-9A-Fa-f
+        if any(isinstance(x, ast.Name) and x.id == name for x in ast.walk(e)):
+            bad = [b"g", b"1g", b"G1", b"+1", b"-1", b"1_0", b" 1", b"1 ", b"0x1", b"1\t", b"\xb9", b"1;", b"1\r"]
+            good = [b"0", b"1f", b"ABCDEF", b"abcdef0123456789", b"00"]
+            try:
+                return sample_polarity(func, e, bad, good, var=name)
+            except Exception:
+                return None
         return None
     return recog
 
